@@ -5,6 +5,7 @@ from __future__ import annotations
 import ast
 import re
 
+from sa.cfg import CFG
 from sa.escape import Escapes
 from sa.report import AnalysisError
 from sa.report import Result
@@ -178,6 +179,82 @@ def _range_copy_rule(prog: Program, res: Result) -> None:
     res.floor("C02.R8", "functions analysed for range copies", n_fn, 40)
 
 
+
+_POW_POSITIVE = """
+def lit(val):
+    mantissa, _, exponent = val.partition("e")
+    exp = int(exponent)
+    if len(mantissa) + len(exponent) > 4300:
+        raise ValueError
+    return int(mantissa) * 10**exp
+"""
+
+
+def _power_guard_rule(prog: Program, res: Result) -> None:
+    """C02.R9: `b ** e` with an exponent that is not a constant costs time and memory exponential in the *text* that spelt e
+    (`1e3000000` is ten characters). The exponent's VALUE must be bounded on every path to the power: a dominating test whose
+    failing side raises and which reads the exponent variable itself - not the length of its spelling."""
+    res.rule("C02.R9", "every power with a non-constant exponent (`10**exp` of an exponent-form literal) is dominated by a test that bounds the exponent's value - the exponent variable itself appears in a comparison whose failing side raises - so the work is bounded by the configured digit limit, not by 10**(digits of the exponent)")
+
+    def findings(fn: ast.AST) -> list[tuple[ast.BinOp, str | None]]:
+        out = []
+        cfg = CFG(fn)
+        for p in ast.walk(fn):
+            if not (isinstance(p, ast.BinOp) and isinstance(p.op, ast.Pow) and not isinstance(p.right, ast.Constant)):
+                continue
+            e = p.right
+            if not isinstance(e, ast.Name):
+                out.append((p, None))
+                continue
+            node = next((n for n in cfg.nodes if n.node is not None and n.kind in ("stmt", "test") and any(x is p for x in ast.walk(n.node))), None)
+            guarded = None
+            for t in cfg.nodes:
+                if t.kind != "test" or t.node is None or node is None:
+                    continue
+                bare = [x for c in ast.walk(t.node) if isinstance(c, ast.Compare) for side in [c.left, *c.comparators] for x in _bare_names(side)]
+                if e.id not in bare:
+                    continue
+                raises_on = [lab for m, lab in t.succ if m.kind == "raise" or (m.node is not None and isinstance(m.node, ast.Raise))]
+                if not raises_on:
+                    continue
+                if node.id not in cfg.reachable(cfg.entry, avoid=lambda x, t=t: x is t):
+                    guarded = norm(t.node, 80)
+            out.append((p, guarded))
+        return out
+
+    pos = findings(ast.parse(_POW_POSITIVE).body[0])
+    if len(pos) != 1 or pos[0][1] is not None:
+        raise AnalysisError("C02.R9: the positive example (a guard on the length of the exponent's spelling) is no longer reported")
+    n = n_pow = 0
+    for fi in sorted(prog.all_functions(), key=lambda f: (f.file, f.node.lineno)):
+        n += 1
+        if not any(isinstance(p, ast.BinOp) and isinstance(p.op, ast.Pow) for p in ast.walk(fi.node)):
+            continue
+        for p, guard in findings(fi.node):
+            if prog.enclosing_function(fi.module, p) is not fi:
+                continue
+            n_pow += 1
+            site = f"{fi.file}:{p.lineno} {fi.qualname}"
+            what = f"{fi.qualname}: `{norm(p)}` is computed only for a bounded exponent"
+            if guard:
+                res.ok("C02.R9", site, what, f"dominated by `{guard}` (raises otherwise)")
+            else:
+                res.fail("C02.R9", file=fi.file, line=p.lineno, qualname=fi.qualname, construct=f"{fi.qualname}: power with an unbounded exponent", message=f"{fi.qualname} computes `{norm(p)}` without a dominating test that bounds `{norm(p.right)}` itself: an exponent-form literal such as `1e3000000` costs seconds and megabytes for ten characters, and the result fails later with a bare ValueError when it is printed", what=what)
+    res.floor("C02.R9", "functions scanned for powers", n, 900)
+    res.floor("C02.R9", "powers with a non-constant exponent", n_pow, 1)
+
+
+def _bare_names(e: ast.AST) -> list[str]:
+    """Names that contribute their VALUE to e: not those wrapped in len()/str()/repr() (the length of a spelling bounds nothing)."""
+    if isinstance(e, ast.Call) and isinstance(e.func, ast.Name) and e.func.id in ("len", "str", "repr"):
+        return []
+    if isinstance(e, ast.Name):
+        return [e.id]
+    out: list[str] = []
+    for ch in ast.iter_child_nodes(e):
+        out += _bare_names(ch)
+    return out
+
 def run(prog: Program, res: Result) -> None:  # noqa: PLR0912, PLR0915
     res.explanation = (
         "escapes(f) = catalogue sites and explicit raises in f not caught by an enclosing handler, plus the escapes of every "
@@ -313,6 +390,7 @@ def run(prog: Program, res: Result) -> None:  # noqa: PLR0912, PLR0915
 
     check_definite_assignment(prog, res, "C02.R7")
     _range_copy_rule(prog, res)
+    _power_guard_rule(prog, res)
     # ------------------------------------------------------------------ R3 boundary converters
     res.rule("C02.R3", "Filter.evaluate[_async] wraps the dynamic filter call in a handler converting (TypeError, ValueError, ArithmeticError, LookupError, AttributeError, OSError) to LiquidTypeError; render_with_context converts stray LiquidInterrupts")
     flt = prog.mod("liquid2/builtin/expressions.py").classes.get("Filter")
